@@ -109,6 +109,7 @@ OBJ_CLASSES = {c.__name__: c for c in (AttrsA, AttrsB, AttrsDict, SlotsA, SlotsB
 HASHED_FIELDS = {n: ("x", "y") for n in OBJ_CLASSES}
 UNHASHED_FIELDS = {"AttrsA": ("note",), "AttrsB": ("note",)}
 
+CALLABLE_TYPE_EXPRS = ("int", "str", "float", "bool", "bytes", "complex", "list", "dict", "tuple", "set", "frozenset")
 METHOD_CLASSES = ("PlainA", "PlainB", "PlainDunder")  # classes of the object grammar that define `method`
 # classes hashed through __dict__: an attribute whose value is a bound method is skipped by the fallback (by design:
 # `is_special_or_method`), so it is not content
@@ -250,6 +251,20 @@ class Builder:
             return eval(s["v"], dict(TYPE_NS))
         if k == "func":
             return self.build_func(s)
+        if k == "file":
+            # a fileformats File over a file with the given content (created on demand next to the generated modules; the
+            # same spec gives the same path, so equal specs built twice are EQUAL, separate File objects)
+            from fileformats.generic import File
+
+            d = (self.moddir.parent if self.moddir else Path(os.environ.get("VERIF_HASH_MODDIR", "/tmp"))) / "files"
+            d.mkdir(parents=True, exist_ok=True)
+            f = d / (s["hex"] or "empty") / s["name"]  # one path per (content, name): files are never rewritten
+            f.parent.mkdir(exist_ok=True)
+            data = bytes.fromhex(s["hex"])
+            if not f.exists() or f.read_bytes() != data:
+                f.write_bytes(data)
+                os.utime(f, ns=(10**18, 10**18))  # a fixed mtime: the persistent hash cache key is (path, mtime)
+            return File(f)
         if k == "partial":
             import functools
 
@@ -395,6 +410,10 @@ class Caser:
         t = type(o)
         if hasattr(t, "__bytes_repr__"):
             raise Unsupported("__bytes_repr__")
+        from fileformats.core.fileset import FileSet as _FileSet
+
+        if isinstance(o, _FileSet):
+            raise Unsupported("file sets are outside the model (C09); the implementation is still checked against the oracle")
         if isinstance(o, os.PathLike):
             return {"t": "path", "cls": f"{t.__module__}.{t.__name__}", "hex": os.fspath(o).encode().hex()}
         try:
@@ -749,6 +768,8 @@ def canon(s, env=None, stack=()):
         # … except for functions without source: they are hashed through their code object, whose co_name is content
         is_exec = s.get("mode", "module") == "exec"
         return ["func", bool(s.get("lambda")), list(s["params"]), list(s["body"]), is_exec, s.get("name", "f") if is_exec else None]
+    if k == "file":
+        return ["file", s["name"], s["hex"]]
     if k == "partial":
         return ["partial", canon(s["func"], env, stack), [canon(x, env, stack) for x in s["xs"]], sorted((n, canon(v, env, stack)) for n, v in s["kw"].items())]
     if k == "method":
@@ -777,6 +798,15 @@ def type_key(t):
 
 def canon_key(s) -> str:
     return json.dumps(canon(s), sort_keys=True)
+
+
+def well_scoped(s) -> bool:
+    """every `use` follows the `def` of its name (a mutation / shuffle may have moved it in front)"""
+    try:
+        canon_key(s)
+        return True
+    except KeyError:
+        return False
 
 
 def has_cycle(s, stack=()) -> bool:
@@ -981,6 +1011,65 @@ def gen_eq_sibling_pair(rng):
     return A, B, f"eq-twins:{how}-in-{c}", (x, y2)
 
 
+def gen_file(rng):
+    return {"k": "file", "name": rng.choice(["a.txt", "b.txt", "img.dat"]), "hex": rng.choice(["", "00", "6162", "ff00ff", "0a0a"])}
+
+
+def gen_aliased(rng, with_files=True):
+    """a value in which ONE object is referenced several times (a File, or a list / tuple / dict / object / set): the equal
+    value built from separate equal objects (`unshare`) must get the same hash — aliasing is not content"""
+    r = rng.random()
+    if with_files and r < 0.55:
+        inner = gen_file(rng)
+    elif r < 0.7:
+        inner = {"k": "obj", "cls": rng.choice(["PlainA", "SlotsA", "AttrsA"]), "kw": {"x": gen_scalar(rng), "y": gen_scalar(rng)}}
+    elif r < 0.8:
+        inner = {"k": "frozenset", "xs": [gen_key(rng, "str") for _ in range(rng.randint(1, 3))]}
+    else:
+        inner = {"k": rng.choice(["list", "tuple"]), "xs": [gen_scalar(rng) for _ in range(rng.randint(0, 3))]}
+    name = f"al{rng.randrange(10**9)}"
+    d, u = {"k": "def", "name": name, "v": inner}, {"k": "use", "name": name}
+    other = gen_file(rng) if (with_files and rng.random() < 0.5) else gen_scalar(rng)
+    shape = rng.choice(["pair", "list3", "dict", "obj", "nested", "mixed"])
+    if shape == "pair":
+        return {"k": rng.choice(["list", "tuple"]), "xs": [d, u]}
+    if shape == "list3":
+        return {"k": "list", "xs": [other, d, u, other, u]}
+    if shape == "dict":
+        return {"k": "dict", "items": [[_s("reference"), d], [_s("moving"), u], [_s("n"), _i(1)]]}
+    if shape == "obj":
+        return {"k": "obj", "cls": rng.choice(["PlainA", "SlotsB", "AttrsDict"]), "kw": {"x": d, "y": u}}
+    if shape == "nested":
+        return {"k": "tuple", "xs": [{"k": "list", "xs": [d]}, {"k": "dict", "items": [[_s("again"), {"k": "list", "xs": [u, other]}]]}]}
+    return {"k": "list", "xs": [d, {"k": "list", "xs": [other, u]}, u]}
+
+
+def gen_callable_attr_pair(rng):
+    """two plain-class instances (hashed through __dict__) that differ ONLY in a callable stored on the instance: a function
+    (other body), a functools.partial (other keyword / other function), a class.  (A, B, aspect, call) — `call` is a Python
+    expression in `x` (the instance) that distinguishes them when evaluated."""
+    cls = rng.choice(["PlainA", "PlainB"])
+    f = lambda body, params=("x",): {"k": "func", "name": "f", "params": list(params), "body": [body]}
+    kind = rng.choice(["function", "function", "partial-keyword", "partial-func", "class"])
+    if kind == "function":
+        b1, b2 = rng.sample(["return x * 2", "return x * x", "return x + 7", "return -x"], 2)
+        v1, v2 = f(b1), f(b2)
+    elif kind == "partial-keyword":
+        g = f("return x * y", ("x", "y"))
+        k1, k2 = rng.sample([2, 3, 5, 10], 2)
+        v1, v2 = {"k": "partial", "func": g, "xs": [], "kw": {"y": _i(k1)}}, {"k": "partial", "func": g, "xs": [], "kw": {"y": _i(k2)}}
+    elif kind == "partial-func":
+        v1 = {"k": "partial", "func": f("return x * y", ("x", "y")), "xs": [], "kw": {"y": _i(3)}}
+        v2 = {"k": "partial", "func": f("return x + y", ("x", "y")), "xs": [], "kw": {"y": _i(3)}}
+    else:
+        t1, t2 = rng.sample(["int", "float", "str", "complex"], 2)
+        v1, v2 = {"k": "type", "v": t1}, {"k": "type", "v": t2}
+    other = _i(rng.randint(0, 9))
+    a = {"k": "obj", "cls": cls, "kw": {"x": v1, "y": other}}
+    b = {"k": "obj", "cls": cls, "kw": {"x": v2, "y": other}}
+    return a, b, f"callable-attr:{kind}", "repr(x.x(3))"
+
+
 def gen_layout_pair(rng, kind: str):
     """(A, B, same): kind 'layout' = equal content in two different memory layouts (must hash EQUAL);
     kind 'raw' = different contents with an identical raw buffer (must hash DIFFERENT)."""
@@ -1178,6 +1267,10 @@ def valid(s) -> bool:
             return False
         if n["k"] == "dict" and not all(hashable(kv[0]) for kv in n["items"]):
             return False
+        if n["k"] == "partial" and not (
+            n["func"]["k"] == "func" or (n["func"]["k"] == "type" and n["func"]["v"] in CALLABLE_TYPE_EXPRS)
+        ):
+            return False  # functools.partial needs a callable
         if n["k"] == "method" and not (n["obj"]["k"] == "obj" and n["obj"]["cls"] in METHOD_CLASSES):
             return False
     return True
@@ -1403,6 +1496,9 @@ def run_child(jobs: list[dict], seed: int, moddir: Path, timeout: int = 600) -> 
 def child_main():
     core.assert_repo_loaded()
     moddir = Path(os.environ["VERIF_HASH_MODDIR"])
+    hc = moddir.parent / "hashcache"
+    hc.mkdir(parents=True, exist_ok=True)
+    os.environ.setdefault("PYDRA_HASH_CACHE", str(hc))
     out = sys.stdout
     for line in sys.stdin:
         line = line.strip()
